@@ -2,7 +2,7 @@
 
 // Package token drives the real handshake.TokenGenerator and baseServer.validateToken (property C14).
 //
-// Two generators with fixed, different keys (kid 0 = this server, kid 1 = a foreign key). The whole run is
+// Three generators with fixed keys (kid 0 = this server, kid 1 = a foreign key, kid 2 = the all-zero key). The whole run is
 // inside a testing/synctest bubble, so time.Now / time.Since use the bubble's fake clock; `sleep` shifts it.
 //
 //	issue <tid> <kid> R <addr> <odcid> <rscid>        NewRetryToken          => ok tok=<hex> | now=<ns>
@@ -19,6 +19,12 @@
 //	      receives a 1200-byte Initial datagram carrying this token from <addr>; handleInitialImpl's decision is
 //	      observed through GetConfigForClient(ClientInfo.AddrVerified) / the Retry packet written
 //	      => proceed av=<0|1> | retry | drop | now=<ns>
+//	dkey <inst>            the token key a real quic.Transport WITHOUT TokenGeneratorKey chose for itself (instances live for the
+//	                       whole case)                                            => zero=<0|1> dup=<0|1>  (all-zero? equal to another key?)
+//	dissue <tid> <inst> <addr>   instance <inst> (VerifySourceAddress on) receives a token-less Initial from <addr> and answers with
+//	                       a Retry; the token is taken from the Retry packet      => ok tok=<hex> rscid=<hex> | now=<ns>
+//	dinitial <inst> <hex|-|@tid> <addr> <wantsRetry>   like `initial`, at the default-key instance (MaxTokenAge default,
+//	                       HandshakeIdleTimeout 5s)                               => proceed av=<0|1> | retry | drop | now=<ns>
 //	sleep <ns>                                                                  => ok | now=<ns>
 //
 // addr: u:<iphex>:<port>:<zonehex> (*net.UDPAddr) or o:<hex of String()> (another net.Addr); "-" = empty hex.
@@ -69,8 +75,9 @@ type issued struct {
 }
 
 type runner struct {
-	keys   [2]handshake.TokenProtectorKey
-	gens   [2]*handshake.TokenGenerator
+	keys   [3]handshake.TokenProtectorKey
+	gens   [3]*handshake.TokenGenerator
+	insts  map[int]*instance
 	toks   []issued
 	byID   map[int][]byte
 	queue  []string // pending generated ops (sweeps)
@@ -83,8 +90,9 @@ func newRunner(r *vh.Rand) vh.Runner {
 		k0[i] = byte(i*7 + 1)
 		k1[i] = byte(i*13 + 5)
 	}
-	return &runner{keys: [2]handshake.TokenProtectorKey{k0, k1},
-		gens: [2]*handshake.TokenGenerator{handshake.NewTokenGenerator(k0), handshake.NewTokenGenerator(k1)}}
+	var kz handshake.TokenProtectorKey
+	return &runner{keys: [3]handshake.TokenProtectorKey{k0, k1, kz},
+		gens: [3]*handshake.TokenGenerator{handshake.NewTokenGenerator(k0), handshake.NewTokenGenerator(k1), handshake.NewTokenGenerator(kz)}}
 }
 
 func hx(b []byte) string {
@@ -195,6 +203,9 @@ func (rn *runner) genOp(r *vh.Rand, i int) string {
 		rn.queue = rn.queue[1:]
 		return op
 	}
+	if r.Chance(6) {
+		return rn.genInstanceScript(r)
+	}
 	if len(rn.toks) == 0 || r.Chance(12) {
 		return rn.genIssue(r)
 	}
@@ -212,7 +223,7 @@ func (rn *runner) genOp(r *vh.Rand, i int) string {
 	case 2: // other address
 		return fmt.Sprintf("check %d %s %s %d %d", t.kid, hx(t.tok), otherAddr(r, present), age, idle)
 	case 3: // foreign key
-		return fmt.Sprintf("check %d %s %s %d %d", 1-t.kid, hx(t.tok), present, age, idle)
+		return fmt.Sprintf("check %d %s %s %d %d", (t.kid+1)%3, hx(t.tok), present, age, idle)
 	case 4: // clock shift, then validate
 		var d int64
 		switch r.Pick(30, 30, 25, 15) {
@@ -260,6 +271,37 @@ func (rn *runner) genOp(r *vh.Rand, i int) string {
 	default:
 		return rn.genRaw(r)
 	}
+}
+
+// a token handed out by one server instance (default key), or sealed under the all-zero / a fixed key, shown to the
+// same and to another default-key instance
+func (rn *runner) genInstanceScript(r *vh.Rand) string {
+	a, b := r.Intn(3), r.Intn(3)
+	if a == b {
+		b = (a + 1) % 3
+	}
+	addr := genAddr(r)
+	id := rn.nextID
+	rn.nextID += 2
+	wr := r.Intn(2)
+	switch r.Pick(50, 30, 20) {
+	case 0: // A's Retry token at A (valid) and at B
+		rn.queue = append(rn.queue,
+			fmt.Sprintf("dissue %d %d %s", id, a, addr),
+			fmt.Sprintf("dinitial %d @%d %s %d", a, id, addr, r.Intn(2)),
+			fmt.Sprintf("dinitial %d @%d %s %d", b, id, addr, wr),
+			fmt.Sprintf("dinitial %d @%d %s %d", a, id, otherAddr(r, addr), wr))
+	case 1: // a token sealed offline under the all-zero key / a fixed key
+		kid := []int{2, 2, 0, 1}[r.Intn(4)]
+		rn.queue = append(rn.queue,
+			fmt.Sprintf("issue %d %d R %s %s %s", id, kid, addr, hx(r.Bytes(8)), hx(r.Bytes(4))),
+			fmt.Sprintf("dinitial %d @%d %s %d", a, id, addr, wr),
+			fmt.Sprintf("issue %d %d N %s %d", id+1, kid, addr, r.Range(0, 100000)),
+			fmt.Sprintf("dinitial %d @%d %s %d", b, id+1, addr, wr))
+	default:
+		rn.queue = append(rn.queue, fmt.Sprintf("dkey %d", b))
+	}
+	return fmt.Sprintf("dkey %d", a)
 }
 
 func (rn *runner) genIssue(r *vh.Rand) string {
@@ -334,7 +376,7 @@ func (rn *runner) Exec(op string) string {
 	if len(f) == 0 {
 		return "bad-op"
 	}
-	kidOf := func(s string) (int, bool) { k, err := strconv.Atoi(s); return k, err == nil && (k == 0 || k == 1) }
+	kidOf := func(s string) (int, bool) { k, err := strconv.Atoi(s); return k, err == nil && k >= 0 && k <= 2 }
 	switch f[0] {
 	case "issue":
 		if len(f) < 6 {
@@ -434,6 +476,74 @@ func (rn *runner) Exec(op string) string {
 			return "skip"
 		}
 		return rn.realInitial(kid, tokb, addr, f[4] == "1", time.Duration(vh.Atoi64(f[5])), time.Duration(vh.Atoi64(f[6]))) + now()
+	case "dkey":
+		if len(f) != 2 {
+			return "bad-op"
+		}
+		in := rn.inst(int(vh.Atoi64(f[1])))
+		if in == nil {
+			return "E:listen"
+		}
+		key := *in.tr.TokenGeneratorKey
+		zero, dup := 0, 0
+		if key == (handshake.TokenProtectorKey{}) {
+			zero = 1
+		}
+		for i, o := range rn.insts {
+			if i != in.id && *o.tr.TokenGeneratorKey == key {
+				dup = 1
+			}
+		}
+		for _, k := range rn.keys {
+			if k == key {
+				dup = 1
+			}
+		}
+		return fmt.Sprintf("zero=%d dup=%d", zero, dup)
+	case "dissue":
+		if len(f) != 4 {
+			return "bad-op"
+		}
+		id, _ := strconv.Atoi(f[1])
+		addr := parseAddr(f[3])
+		in := rn.inst(int(vh.Atoi64(f[2])))
+		if addr == nil {
+			return "bad-op"
+		}
+		if in == nil {
+			return "E:listen"
+		}
+		res, out := in.present(nil, addr, true)
+		for _, d := range out {
+			if len(d) > 0 && wire.IsLongHeaderPacket(d[0]) {
+				if h, _, _, err := wire.ParsePacket(d); err == nil && h.Type == protocol.PacketTypeRetry {
+					if rn.byID == nil {
+						rn.byID = map[int][]byte{}
+					}
+					rn.byID[id] = append([]byte(nil), h.Token...)
+					return "ok tok=" + hx(h.Token) + " rscid=" + hx(h.SrcConnectionID.Bytes()) + now()
+				}
+			}
+		}
+		return "E:" + strings.Fields(res)[0] + now()
+	case "dinitial":
+		if len(f) != 5 {
+			return "bad-op"
+		}
+		addr := parseAddr(f[3])
+		tokb, ok2 := rn.tokenArg(f[2])
+		if addr == nil {
+			return "bad-op"
+		}
+		if !ok2 || rn.mayPanic(hx(tokb)) {
+			return "skip"
+		}
+		in := rn.inst(int(vh.Atoi64(f[1])))
+		if in == nil {
+			return "E:listen"
+		}
+		res, _ := in.present(tokb, addr, f[4] == "1")
+		return res + now()
 	case "sleep":
 		if len(f) != 2 {
 			return "bad-op"
@@ -462,6 +572,115 @@ func (r *capRouter) SendPacket(p simnet.Packet) error {
 	r.out = append(r.out, append([]byte(nil), p.Data...))
 	r.mu.Unlock()
 	return nil
+}
+
+// instance is a real quic.Transport + Listener that was NOT given a TokenGeneratorKey
+type instance struct {
+	id         int
+	rt         *capRouter
+	sc         *simnet.SimConn
+	tr         *quic.Transport
+	ln         *quic.Listener
+	mu         sync.Mutex
+	wantsRetry bool
+	called     bool
+	verified   bool
+}
+
+func (rn *runner) inst(id int) *instance {
+	if id < 0 || id > 2 {
+		return nil
+	}
+	if in, ok := rn.insts[id]; ok {
+		return in
+	}
+	in := &instance{id: id, rt: &capRouter{}}
+	in.sc = simnet.NewSimConn(srvAddr, in.rt)
+	in.tr = &quic.Transport{Conn: in.sc}
+	in.tr.VerifySourceAddress = func(net.Addr) bool { in.mu.Lock(); defer in.mu.Unlock(); return in.wantsRetry }
+	ln, err := in.tr.Listen(&tls.Config{NextProtos: []string{"verif"}}, &quic.Config{
+		HandshakeIdleTimeout: 5 * time.Second,
+		GetConfigForClient: func(ci *quic.ClientInfo) (*quic.Config, error) {
+			in.mu.Lock()
+			in.called, in.verified = true, ci.AddrVerified
+			in.mu.Unlock()
+			return nil, fmt.Errorf("verif: refuse")
+		},
+	})
+	if err != nil {
+		return nil
+	}
+	in.ln = ln
+	if rn.insts == nil {
+		rn.insts = map[int]*instance{}
+	}
+	rn.insts[id] = in
+	return in
+}
+
+// present shows one 1200-byte Initial with this token to the instance; returns the decision and what it wrote
+func (in *instance) present(tok []byte, from net.Addr, wantsRetry bool) (string, [][]byte) {
+	in.mu.Lock()
+	in.wantsRetry, in.called, in.verified = wantsRetry, false, false
+	in.mu.Unlock()
+	in.rt.mu.Lock()
+	in.rt.out = nil
+	in.rt.mu.Unlock()
+	raw := initialDatagram(tok)
+	if raw == nil {
+		return "E:hdr", nil
+	}
+	in.rt.inner.SendPacket(simnet.Packet{To: srvAddr, From: from, Data: raw})
+	synctest.Wait()
+	res := "drop"
+	in.mu.Lock()
+	if in.called {
+		res = fmt.Sprintf("proceed av=%d", map[bool]int{false: 0, true: 1}[in.verified])
+	}
+	in.mu.Unlock()
+	in.rt.mu.Lock()
+	out := in.rt.out
+	in.rt.out = nil
+	in.rt.mu.Unlock()
+	for _, d := range out {
+		if len(d) > 0 && wire.IsLongHeaderPacket(d[0]) {
+			if h, _, _, err := wire.ParsePacket(d); err == nil && h.Type == protocol.PacketTypeRetry && res == "drop" {
+				res = "retry"
+			}
+		}
+	}
+	return res, out
+}
+
+func (rn *runner) Close() {
+	for _, in := range rn.insts {
+		go in.ln.Close()
+		synctest.Wait()
+		in.tr.Close()
+		in.sc.Close()
+	}
+	rn.insts = nil
+	synctest.Wait()
+}
+
+// initialDatagram is a 1200-byte Initial (junk payload: the server looks at the header only) with this token
+func initialDatagram(tok []byte) []byte {
+	v := protocol.Version1
+	hdr := &wire.ExtendedHeader{
+		Header: wire.Header{Type: protocol.PacketTypeInitial, DestConnectionID: protocol.ParseConnectionID([]byte{1, 2, 3, 4, 5, 6, 7, 8}),
+			SrcConnectionID: protocol.ParseConnectionID([]byte{9, 9, 9, 9}), Version: v, Token: tok, Length: 1000},
+		PacketNumber: 0, PacketNumberLen: protocol.PacketNumberLen4,
+	}
+	raw, err := hdr.Append(nil, v)
+	if err != nil {
+		return nil
+	}
+	hdr.Length = protocol.ByteCount(4 + 1200 - len(raw))
+	raw, _ = hdr.Append(nil, v)
+	for len(raw) < 1200 {
+		raw = append(raw, byte(len(raw)*7+3))
+	}
+	return raw
 }
 
 // realInitial shows one Initial datagram with the given token to a real server and reports what
